@@ -819,7 +819,19 @@ fn generate_function_inner(
                     let layer = context.module.type_registry.get_type_layer(*id);
                     let name = if let ir::TypeLayer::Struct(id) = layer {
                         let left_name = context.get_struct_name(id).unwrap();
-                        Some(Located::none(left_name.to_string()))
+                        // Several parameters may be bound to structs of the same name: only one of them can carry it
+                        let already_used = template_params.iter().any(|param| match param {
+                            ast::TemplateParam::Type(ast::TemplateTypeParam {
+                                name: Some(name),
+                                ..
+                            }) => name.node == left_name,
+                            _ => false,
+                        });
+                        if already_used {
+                            None
+                        } else {
+                            Some(Located::none(left_name.to_string()))
+                        }
                     } else {
                         None
                     };
